@@ -282,6 +282,76 @@ theorem C33_in_block_single_use_false :
   have := h [⟨1, [], [4, 4], [], [true], []⟩] (by decide) (by decide)
   revert this; decide
 
+/-- connecting a block records **every** hash of **every** withdrawal in it (batched withdrawals
+    included) … -/
+theorem C33_saved_hashes_recorded (wd : List Nat) (txs : List Tx) :
+    (∀ x ∈ wd, x ∈ saveBlock wd txs) ∧ ∀ t ∈ txs, ∀ x ∈ recorded t, x ∈ saveBlock wd txs := by
+  unfold saveBlock
+  induction txs generalizing wd with
+  | nil => exact ⟨fun x hx => hx, fun t ht => by cases ht⟩
+  | cons a l ih =>
+    simp only [List.foldl_cons]
+    obtain ⟨h1, h2⟩ := ih (recorded a ++ wd)
+    refine ⟨fun x hx => h1 x (List.mem_append.2 (Or.inr hx)), ?_⟩
+    intro t ht x hx
+    rcases List.mem_cons.1 ht with rfl | ht
+    · exact h1 x (List.mem_append.2 (Or.inl hx))
+    · exact h2 t ht x hx
+
+/-- … so a later V0/V1 withdrawal naming any hash of a connected (batched) withdrawal is refused. -/
+theorem C33_single_use_after_save (c : Cfg) (l : Ledger) (height : Nat) (block : List Tx) (t t' : Tx)
+    (ht : t ∈ block) (x : Nat) (hx : x ∈ recorded t) (hv : t'.pver = 0 ∨ t'.pver = 1) (hx' : x ∈ recorded t') :
+    specialCheck c { l with withdrawn := saveBlock l.withdrawn block } height t' ≠ none :=
+  C33_single_use_partial c _ height t' hv x hx' ((C33_saved_hashes_recorded l.withdrawn block).2 t ht x hx)
+
+/-- disconnecting a block forgets exactly its hashes (when they were new) -/
+theorem C33_rollback_restores (wd : List Nat) (txs : List Tx)
+    (hfresh : ∀ t ∈ txs, ∀ x ∈ recorded t, x ∉ wd) (x : Nat) :
+    x ∈ rollbackBlock (saveBlock wd txs) txs ↔ x ∈ wd := by
+  have hroll : ∀ (txs : List Tx) (w : List Nat), x ∈ rollbackBlock w txs ↔ x ∈ w ∧ ∀ t ∈ txs, x ∉ recorded t := by
+    intro txs
+    induction txs with
+    | nil => intro w; simp [rollbackBlock]
+    | cons a l ih =>
+      intro w
+      unfold rollbackBlock at ih ⊢
+      simp only [List.foldl_cons]
+      rw [ih]
+      simp only [List.mem_filter, List.mem_cons, forall_eq_or_imp, Bool.not_eq_true', List.contains_eq_mem,
+        decide_eq_false_iff_not]
+      constructor
+      · rintro ⟨⟨h1, h2⟩, h3⟩; exact ⟨h1, h2, h3⟩
+      · rintro ⟨h1, h2, h3⟩; exact ⟨⟨h1, h2⟩, h3⟩
+  have hsave : ∀ (txs : List Tx) (w : List Nat), x ∈ saveBlock w txs ↔ x ∈ w ∨ ∃ t ∈ txs, x ∈ recorded t := by
+    intro txs
+    induction txs with
+    | nil => intro w; simp [saveBlock]
+    | cons a l ih =>
+      intro w
+      unfold saveBlock at ih ⊢
+      simp only [List.foldl_cons]
+      rw [ih]
+      simp only [List.mem_append, List.mem_cons, exists_eq_or_imp]
+      constructor
+      · rintro ((h | h) | h)
+        · exact Or.inr (Or.inl h)
+        · exact Or.inl h
+        · exact Or.inr (Or.inr h)
+      · rintro (h | h | h)
+        · exact Or.inl (Or.inr h)
+        · exact Or.inl (Or.inl h)
+        · exact Or.inr h
+  rw [hroll, hsave]
+  constructor
+  · rintro ⟨h1 | ⟨t, ht, hxt⟩, h2⟩
+    · exact h1
+    · exact absurd hxt (h2 t ht)
+  · intro h
+    exact ⟨Or.inl h, fun t ht hxt => hfresh t ht x hxt h⟩
+
+example : (runHist ([], []) [.save [⟨1, [], [1, 2, 3], [], [true], []⟩, ⟨0, [4, 5], [], [], [true], []⟩], .save [⟨2, [], [6], [], [true], []⟩], .rollback]).1
+    = [4, 5, 1, 2, 3] := by decide
+
 /-- after `SchnorrStartHeight` only V2 is accepted -/
 theorem C33_only_schnorr_after_start (c : Cfg) (l : Ledger) (height : Nat) (t : Tx)
     (hh : height > c.schnorrStart) (h : specialCheck c l height t = none) : t.pver = 2 := by
